@@ -33,8 +33,11 @@ type respVariant struct {
 }
 
 var c13Status = []int{101, 200, 204, 400, 403, 500}
-var c13Conn = []respVariant{{"Upgrade", false, true, false}, {"upgrade", false, true, false}, {"keep-alive, Upgrade", false, true, false}, {"keep-alive", false, false, false}, {"", true, false, false}}
-var c13Upg = []respVariant{{"websocket", false, true, false}, {"WebSocket", false, true, false}, {"foo, websocket", false, true, false}, {"h2c", false, false, false}, {"", true, false, false}}
+var c13Conn = []respVariant{{"Upgrade", false, true, false}, {"upgrade", false, true, false}, {"keep-alive, Upgrade", false, true, false}, {"keep-alive", false, false, false}, {"", true, false, false},
+	// values that merely contain the token's letters
+	{"Upgrades", false, false, false}, {"keep-alive, not-upgrade", false, false, false}}
+var c13Upg = []respVariant{{"websocket", false, true, false}, {"WebSocket", false, true, false}, {"foo, websocket", false, true, false}, {"h2c", false, false, false}, {"", true, false, false},
+	{"websocket2", false, false, false}, {"notwebsocket", false, false, false}, {"h2c, x-websocket-legacy", false, false, false}}
 var c13Accept = []string{"correct", "other-key", "missing", "truncated", "case-swapped", "padded", "doubled-header", "correct-plus-garbage"}
 var c13Proto = []string{"none", "requested", "requested-other-case", "not-requested"}
 
